@@ -139,3 +139,67 @@ func (i *HItem) AfterCreate(tx *gorm.DB) error {
 func (i *HItem) AfterSave(tx *gorm.DB) error {
 	return hookEvent(tx, "Item.AfterSave", &HRec{Name: i.Name})
 }
+
+// ---- models that define exactly one hook each (C13: hook detection must not
+// depend on another hook being defined too)
+
+type HOnly1 struct {
+	ID   uint
+	Name string
+}
+type HOnly2 struct {
+	ID   uint
+	Name string
+}
+type HOnly3 struct {
+	ID   uint
+	Name string
+}
+type HOnly4 struct {
+	ID   uint
+	Name string
+}
+type HOnly5 struct {
+	ID   uint
+	Name string
+}
+type HOnly6 struct {
+	ID   uint
+	Name string
+}
+type HOnly7 struct {
+	ID   uint
+	Name string
+}
+type HOnly8 struct {
+	ID   uint
+	Name string
+}
+type HOnly9 struct {
+	ID   uint
+	Name string
+}
+
+func (r *HOnly1) BeforeSave(tx *gorm.DB) error {
+	return hookEvent(tx, "BeforeSave", &HRec{Name: r.Name})
+}
+func (r *HOnly2) BeforeCreate(tx *gorm.DB) error {
+	return hookEvent(tx, "BeforeCreate", &HRec{Name: r.Name})
+}
+func (r *HOnly3) AfterCreate(tx *gorm.DB) error {
+	return hookEvent(tx, "AfterCreate", &HRec{Name: r.Name})
+}
+func (r *HOnly4) BeforeUpdate(tx *gorm.DB) error {
+	return hookEvent(tx, "BeforeUpdate", &HRec{Name: r.Name})
+}
+func (r *HOnly5) AfterUpdate(tx *gorm.DB) error {
+	return hookEvent(tx, "AfterUpdate", &HRec{Name: r.Name})
+}
+func (r *HOnly6) AfterSave(tx *gorm.DB) error { return hookEvent(tx, "AfterSave", &HRec{Name: r.Name}) }
+func (r *HOnly7) BeforeDelete(tx *gorm.DB) error {
+	return hookEvent(tx, "BeforeDelete", &HRec{Name: r.Name})
+}
+func (r *HOnly8) AfterDelete(tx *gorm.DB) error {
+	return hookEvent(tx, "AfterDelete", &HRec{Name: r.Name})
+}
+func (r *HOnly9) AfterFind(tx *gorm.DB) error { return hookEvent(tx, "AfterFind", &HRec{Name: r.Name}) }
